@@ -60,6 +60,9 @@ class StreamingHandler(AsyncCallbackHandler, AsyncIterator):
         # The current buffer, until we start the processing.
         self.buffer = ""
 
+        # Whether the LLM call ended before the buffered text was processed
+        self.llm_ended_while_buffering = False
+
         # The full completion
         self.completion = ""
 
@@ -124,6 +127,9 @@ class StreamingHandler(AsyncCallbackHandler, AsyncIterator):
 
         await self.push_chunk(self.buffer)
         self.buffer = ""
+        if self.llm_ended_while_buffering:
+            self.llm_ended_while_buffering = False
+            await self._finish()
 
     async def __anext__(self):
         element = None
@@ -314,6 +320,16 @@ class StreamingHandler(AsyncCallbackHandler, AsyncIterator):
         **kwargs: Any,
     ) -> None:
         """Run when LLM ends running."""
+        if self.enable_buffer:
+            # Nothing of the buffered text was processed yet: the stream is finished
+            # when the buffer is processed.
+            self.llm_ended_while_buffering = True
+            # There will be no more lines
+            self.top_k_nonempty_lines_event.set()
+            return
+        await self._finish()
+
+    async def _finish(self):
         if self.current_chunk:
             if self.suffix and self.current_chunk.endswith(self.suffix):
                 self.current_chunk = self.current_chunk[: -1 * len(self.suffix)]
